@@ -142,3 +142,341 @@ def c_double(ctx, rule, rel, floor):
     ctx.ob(rule, rel, 'every C floating-point declaration (%d parameters, locals and typed buffers) is double precision' % len(fl), not bad,
            '; '.join('`%s %s` at line %d' % (d[1], d[0], d[3]) for d in bad), node=mod, key='c double ' + rel)
     ctx.floor('%s/%s' % (rule, rel), len(fl), floor)
+
+
+# ----------------------------------------------------------------------------- ARRAY-LIKE (path-sensitive)
+NDARRAY_ONLY = {'shape', 'ndim', 'dot', 'T', 'reshape', 'astype', 'sum', 'size', 'dtype', 'flatten', 'tolist', 'max', 'min', 'copy', 'transpose', 'ravel', 'item', 'mean', 'any', 'all'}
+ARRAY_MAKERS = {'np.asarray', 'np.array', 'np.asanyarray', 'numpy.asarray', 'numpy.array', 'np.atleast_1d', 'np.atleast_2d', 'np.ascontiguousarray', 'np.asfortranarray', 'np.broadcast_to',
+                'np.zeros', 'np.empty', 'np.ones', 'np.full'}
+
+
+def _makes_array(e, extra, known):
+    """the expression is certainly an ndarray / numpy scalar: a converting call, arithmetic with one, a method of one that returns one"""
+    if isinstance(e, ast.Call):
+        f = norm(e.func)
+        if f in ARRAY_MAKERS or f in extra or f.split('.')[-1] in extra:
+            return True
+        if isinstance(e.func, ast.Attribute) and e.func.attr in ('reshape', 'copy', 'astype', 'flatten', 'ravel', 'transpose', 'dot') and _makes_array(e.func.value, extra, known):
+            return True
+        # a parameter rebound from any other call of the package (axes_check, vector4to3, ...) is taken to be an array: the rule is about parameters used as passed
+        return f not in ('list', 'tuple', 'float', 'int', 'str', 'dict', 'set', 'sorted', 'bool', 'deepcopy', 'copy.deepcopy', 'copy')
+    if isinstance(e, ast.Name):
+        return e.id in known
+    if isinstance(e, ast.BinOp):
+        return _makes_array(e.left, extra, known) or _makes_array(e.right, extra, known)
+    if isinstance(e, ast.UnaryOp):
+        return _makes_array(e.operand, extra, known)
+    if isinstance(e, ast.Subscript):
+        return False
+    if isinstance(e, ast.IfExp):
+        return _makes_array(e.body, extra, known) and _makes_array(e.orelse, extra, known)
+    return False
+
+
+def _ends(block):
+    return bool(block) and isinstance(block[-1], (ast.Return, ast.Raise, ast.Continue, ast.Break))
+
+
+def _guard_is_array(test, names):
+    """`isinstance(p, np.ndarray)` (possibly and-ed with more): in the true branch p is an array"""
+    out = set()
+    for t in ([test] + (list(test.values) if isinstance(test, ast.BoolOp) and isinstance(test.op, ast.And) else [])):
+        if isinstance(t, ast.Call) and norm(t.func) == 'isinstance' and len(t.args) == 2 and isinstance(t.args[0], ast.Name) and 'ndarray' in norm(t.args[1]):
+            out.add(t.args[0].id)
+    return out & names
+
+
+def _guard_none(test, names):
+    """(names that are None when the test holds, names that are None when it fails): `p is None`, `p is not None`, also and-ed / or-ed with more"""
+    t_, f_ = set(), set()
+    parts = [test]
+    if isinstance(test, ast.BoolOp):
+        parts = list(test.values)
+    for t in parts:
+        if isinstance(t, ast.Compare) and len(t.ops) == 1 and isinstance(t.left, ast.Name) and isinstance(t.comparators[0], ast.Constant) and t.comparators[0].value is None:
+            if isinstance(t.ops[0], ast.Is) and (not isinstance(test, ast.BoolOp) or isinstance(test.op, ast.And)):
+                t_.add(t.left.id)
+            if isinstance(t.ops[0], ast.IsNot) and (not isinstance(test, ast.BoolOp) or isinstance(test.op, ast.Or)):
+                f_.add(t.left.id)
+            if isinstance(t.ops[0], ast.Is) and isinstance(test, ast.BoolOp) and isinstance(test.op, ast.Or):
+                pass
+    return t_ & names, f_ & names
+
+
+def arraylike_paths(fn, params, extra_converters=()):
+    """must-analysis over the statements of fn: the set of array-like parameters that are certainly arrays at each point (converted on *every* path reaching it).
+    Returns the attribute nodes `p.<ndarray-only>` evaluated where p may still be whatever the caller passed (a list, a tuple, a plain number)."""
+    extra = set(extra_converters)
+    params = set(params)
+    bad = []
+
+    def uses(node, known):
+        for x in ast.walk(node):
+            if isinstance(x, (ast.FunctionDef, ast.Lambda)):
+                continue
+            if isinstance(x, ast.Attribute) and isinstance(x.value, ast.Name) and x.value.id in params and x.value.id not in known and x.attr in NDARRAY_ONLY and isinstance(x.ctx, ast.Load):
+                bad.append(x)
+
+    def expr_uses(e, known):
+        # short-circuit forms: `p is not None and p.ndim ...` are still uses of whatever was passed; only isinstance guards change the state
+        if isinstance(e, ast.BoolOp) and isinstance(e.op, ast.And):
+            k = set(known)
+            for v in e.values:
+                expr_uses(v, k)
+                k |= _guard_is_array(v, params)
+            return
+        if isinstance(e, ast.IfExp):
+            expr_uses(e.test, known)
+            expr_uses(e.body, known | _guard_is_array(e.test, params))
+            expr_uses(e.orelse, known)
+            return
+        uses(e, known)
+
+    def block(stmts, known):
+        known = set(known)
+        for s in stmts:
+            if isinstance(s, (ast.FunctionDef, ast.ClassDef)):
+                continue
+            if isinstance(s, ast.Assign):
+                expr_uses(s.value, known)
+                for t in s.targets:
+                    if isinstance(t, ast.Name) and t.id in params:
+                        if _makes_array(s.value, extra, known):
+                            known.add(t.id)
+                        else:
+                            known.discard(t.id)
+                    elif isinstance(t, (ast.Tuple, ast.List)):
+                        for e in t.elts:
+                            if isinstance(e, ast.Name):
+                                known.discard(e.id)
+                    else:
+                        uses(t, known)
+            elif isinstance(s, ast.AugAssign):
+                expr_uses(s.value, known)
+                if isinstance(s.target, ast.Name) and s.target.id in params and not _makes_array(s.value, extra, known):
+                    pass          # p op= x keeps p's kind
+            elif isinstance(s, ast.If):
+                expr_uses(s.test, known)
+                nt, nf = _guard_none(s.test, params)       # a parameter that is None on a branch is not "whatever the caller passed" there: its uses are guarded by the same test
+                neg = _guard_is_array(s.test.operand, params) if isinstance(s.test, ast.UnaryOp) and isinstance(s.test.op, ast.Not) else set()    # `if not isinstance(p, np.ndarray): p = ...`
+                kt = block(s.body, known | _guard_is_array(s.test, params) | nt)
+                kf = block(s.orelse, known | nf | neg)
+                if _ends(s.body) and not _ends(s.orelse):
+                    known = kf
+                elif _ends(s.orelse) and s.orelse and not _ends(s.body):
+                    known = kt
+                else:
+                    known = kt & kf
+            elif isinstance(s, (ast.For, ast.While)):
+                if isinstance(s, ast.For):
+                    expr_uses(s.iter, known)
+                else:
+                    expr_uses(s.test, known)
+                kb = block(s.body, known)
+                block(s.orelse, known & kb)
+                known = known & kb
+            elif isinstance(s, ast.Try):
+                kb = block(s.body, known)
+                ks = [kb] + [block(h.body, known) for h in s.handlers if not _ends(h.body)]
+                k = set.intersection(*ks) if ks else kb
+                k = block(s.orelse, k) if s.orelse else k
+                known = block(s.finalbody, k) if s.finalbody else k
+            elif isinstance(s, ast.With):
+                for it in s.items:
+                    expr_uses(it.context_expr, known)
+                known = block(s.body, known)
+            else:
+                for ch in ast.iter_child_nodes(s):
+                    if isinstance(ch, ast.expr):
+                        expr_uses(ch, known)
+        return known
+    block(fn.body, set())
+    return bad
+
+
+def arraylike(ctx, rule, rel, floor, extra_converters=(), only=None, what=None):
+    """ARRAY-LIKE: a parameter documented as array-like (annotated ``npt.ArrayLike``) is an ndarray on every path before an ndarray-only attribute of it is read; a list, a tuple or
+    a plain number, which the annotation admits, has no .ndim / .shape / .tolist."""
+    mod = ctx.mod(rel)
+    n = 0
+    for fn in [x for x in ast.walk(mod) if isinstance(x, ast.FunctionDef)]:
+        if only is not None and fn.name not in only:
+            continue
+        ps = [a.arg for a in fn.args.args + fn.args.kwonlyargs if a.annotation is not None and 'ArrayLike' in norm(a.annotation)]
+        if not ps or (fn.name.startswith('_') and not fn.name.startswith('__')):
+            continue          # a helper private to its module is handed what its callers in the module made
+        n += len(ps)
+        bad = arraylike_paths(fn, ps, extra_converters)
+        qual = fn.name
+        p = getattr(fn, '_parent', None)
+        while p is not None:
+            if isinstance(p, (ast.ClassDef, ast.FunctionDef)):
+                qual = p.name + '.' + qual
+            p = getattr(p, '_parent', None)
+        seen = set()
+        for x in bad:
+            k = (x.value.id, x.attr)
+            if k in seen:
+                continue
+            seen.add(k)
+            ctx.ob(rule, '%s::%s' % (rel, qual), 'array-like parameter %r is converted to an array on every path before .%s is read' % (x.value.id, x.attr), False,
+                   'line %d: %s is still whatever the caller passed on some path reaching this point' % (x.lineno, x.value.id), node=x, key='%s %s.%s' % (qual, x.value.id, x.attr))
+        if not bad:
+            ctx.ob(rule, '%s::%s' % (rel, qual), 'array-like parameter(s) %s are arrays on every path before ndarray-only attributes are read' % ', '.join(ps), True, node=fn, key=qual)
+    ctx.floor(rule, n, floor)
+
+
+# ----------------------------------------------------------------------------- NATIVE-VALUES
+_NATIVE_CALLS = {'float', 'int', 'str', 'bool', 'list', 'tuple', 'dict', 'DM', 'repr', 'len'}
+_NATIVE_METHODS = {'tolist', 'item', 'strip', 'join', 'format', 'decode', 'lower', 'upper'}
+
+
+def _native_returns(fn, mod_funcs, depth=0):
+    """every value the function returns is native, whatever it was given"""
+    rets = [x for x in walk_no_nested(fn) if isinstance(x, ast.Return)]
+    if not rets:
+        return False
+    ok = [True]
+
+    def on_store(*a):
+        pass
+    res = _native_flow(fn, set(), mod_funcs, depth + 1, on_return=lambda e, good: ok.__setitem__(0, ok[0] and good))
+    return ok[0]
+
+
+def _native_flow(fn, str_params, mod_funcs, depth=0, on_store=None, on_return=None, containers=()):
+    """forward must-analysis: the set of local names that certainly hold a native Python value (or None under the guard that tests it) at each point"""
+    containers = set(containers)
+
+    def native(e, known, natfn):
+        if e is None or isinstance(e, (ast.Constant, ast.JoinedStr)):
+            return True
+        if isinstance(e, (ast.List, ast.Tuple)):
+            return all(native(x, known, natfn) for x in e.elts)
+        if isinstance(e, ast.ListComp):
+            return True          # a list display; its elements are whatever the comprehension computes (lists of numpy scalars are outside this rule)
+        if isinstance(e, ast.Call):
+            f = norm(e.func)
+            if f in _NATIVE_CALLS:
+                return True
+            if isinstance(e.func, ast.Attribute) and e.func.attr in _NATIVE_METHODS:
+                return True
+            if isinstance(e.func, ast.Name) and e.func.id in natfn:
+                return True
+            if isinstance(e.func, ast.Name) and e.func.id in mod_funcs and depth < 2:
+                return _native_returns(mod_funcs[e.func.id], mod_funcs, depth)
+            return False
+        if isinstance(e, ast.Name):
+            return e.id in known or e.id in str_params or e.id in containers
+        if isinstance(e, ast.IfExp):
+            return native(e.body, known, natfn) and native(e.orelse, known, natfn)
+        if isinstance(e, ast.BinOp):
+            return native(e.left, known, natfn) and native(e.right, known, natfn)
+        return False
+
+    def lam_native(e):
+        return isinstance(e, ast.Lambda) and native(e.body, set(), set())
+
+    cond = {}        # normalised test -> names known native whenever that test holds (set under the same test earlier; dropped when a name of the test is rebound)
+
+    def rebinds(s):
+        out = set()
+        for t in (s.targets if isinstance(s, ast.Assign) else [s.target] if isinstance(s, (ast.AugAssign, ast.AnnAssign)) else []):
+            for n_ in ast.walk(t):
+                if isinstance(n_, ast.Name) and isinstance(n_.ctx, ast.Store):
+                    out.add(n_.id)
+        return out
+
+    def block(stmts, known, natfn):
+        known, natfn = set(known), set(natfn)
+        for s in stmts:
+            rb = rebinds(s)
+            if rb:
+                for k in [k for k, (names, free) in cond.items() if rb & free]:
+                    del cond[k]
+                for k in list(cond):
+                    names, free = cond[k]
+                    cond[k] = (names - rb, free)
+            if isinstance(s, ast.FunctionDef):
+                if _native_returns(s, mod_funcs, depth):
+                    natfn.add(s.name)
+                continue
+            if isinstance(s, ast.Assign):
+                for t in s.targets:
+                    if isinstance(t, ast.Name):
+                        if lam_native(s.value):
+                            natfn.add(t.id)
+                            known.discard(t.id)
+                        else:
+                            natfn.discard(t.id)
+                            (known.add if native(s.value, known, natfn) else known.discard)(t.id)
+                    elif isinstance(t, ast.Subscript) and isinstance(t.value, ast.Name) and t.value.id in containers and on_store:
+                        on_store(s, t, native(s.value, known, natfn))
+                    elif isinstance(t, (ast.Tuple, ast.List)):
+                        for e in t.elts:
+                            if isinstance(e, ast.Name):
+                                known.discard(e.id)
+                                natfn.discard(e.id)
+            elif isinstance(s, ast.Return):
+                if on_return:
+                    on_return(s.value, native(s.value, known, natfn))
+            elif isinstance(s, ast.If):
+                nt, nf = _guard_none(s.test, known | {n.id for n in ast.walk(s.test) if isinstance(n, ast.Name)})
+                key = norm(s.test)
+                kt, ft = block(s.body, known | nt | (cond[key][0] if key in cond else set()), natfn)
+                kf, ff = block(s.orelse, known | nf, natfn)
+                if not s.orelse and not _ends(s.body):
+                    free = {n_.id for n_ in ast.walk(s.test) if isinstance(n_, ast.Name)}
+                    body_rb = set()
+                    for x in ast.walk(ast.Module(s.body, [])):
+                        body_rb |= rebinds(x) if isinstance(x, (ast.Assign, ast.AugAssign, ast.AnnAssign)) else set()
+                    if not (body_rb & free):
+                        cond[key] = ((kt - kf) | (cond[key][0] if key in cond else set()), free)
+                if _ends(s.body) and not _ends(s.orelse):
+                    known, natfn = kf, ff
+                elif _ends(s.orelse) and s.orelse and not _ends(s.body):
+                    known, natfn = kt, ft
+                else:
+                    known, natfn = kt & kf, ft & ff
+            elif isinstance(s, (ast.For, ast.While)):
+                kb, fb = block(s.body, known, natfn)
+                known, natfn = known & kb, natfn & fb
+                if s.orelse:
+                    block(s.orelse, known, natfn)
+            elif isinstance(s, ast.Try):
+                kb, fb = block(s.body, known, natfn)
+                for h in s.handlers:
+                    kh, fh = block(h.body, known, natfn)
+                    if not _ends(h.body):
+                        kb, fb = kb & kh, fb & fh
+                if s.orelse:
+                    kb, fb = block(s.orelse, kb, fb)
+                if s.finalbody:
+                    kb, fb = block(s.finalbody, kb, fb)
+                known, natfn = kb, fb
+            elif isinstance(s, ast.With):
+                known, natfn = block(s.body, known, natfn)
+            elif isinstance(s, ast.AugAssign) and isinstance(s.target, ast.Name):
+                if not native(s.value, known, natfn):
+                    known.discard(s.target.id)
+        return known, natfn
+    return block(fn.body, set(), set())
+
+
+def native_values(ctx, rule, rel, qual, container_ctor=('DM', 'DataModelDict', 'dict'), floor=1, str_params=()):
+    """NATIVE-VALUES: what a model writer stores in the data model it returns is a plain Python number, string or (nested) list -- the result of .tolist() / .item() /
+    float() / int() / str() / list(), on every path -- never a numpy scalar or array as computed: the text encoders render those through repr(), which for numpy >= 2 reads
+    'np.float64(2.5)' and cannot be read back."""
+    fn = ctx.fn(rel, qual)
+    mod = ctx.mod(rel)
+    mod_funcs = {n.name: n for n in mod.body if isinstance(n, ast.FunctionDef) and n is not fn}
+    containers = {t.id for s in walk_no_nested(fn) if isinstance(s, ast.Assign) and isinstance(s.value, ast.Call) and norm(s.value.func).split('.')[-1] in container_ctor
+                  for t in s.targets if isinstance(t, ast.Name)}
+    seen = []
+
+    def on_store(s, t, good):
+        seen.append(s)
+        ctx.ob(rule, '%s::%s' % (rel, qual), 'the entry %s of the model is a plain Python value (number, string, list) on every path, not a numpy scalar or array' % norm(t.slice),
+               good, 'line %d stores %s as computed' % (s.lineno, norm(s.value)[:80]), node=s, key='%s store %s = %s' % (qual, norm(t.slice), norm(s.value)[:40]))
+    _native_flow(fn, set(str_params), mod_funcs, on_store=on_store, containers=containers)
+    ctx.floor(rule, len(seen), floor)
